@@ -26,10 +26,13 @@ Conventions of the statements
     (`track_range`); there the corner arm `if track >= 360. { 0. }` is dead code
     (`wrap_arm_dead_exact`), and `wrap_rounded_range` / `wrap_rounded_needs_arm` show on a
     `rem_euclid` with its one rounding made explicit why the arm is needed in `f64`;
-  - `groundspeed` and `track` are `Rat`s in the model: their FINITENESS as `f64` (no NaN/∞ out of
-    `sqrt`, `atan2`, the divisions) holds by typing only and is NOT a theorem; it, and the `360.0`
-    corner of the real `rem_euclid`, are checked by the harness on the real code only
-    (no division by zero: `trackDivisor_pos`).  IEEE rounding is outside (DESIGN §8).
+  - `groundspeed` and `track` are `Rat`s in the model.  GROUND SPEED: `groundspeed_range` (model, `[0, 136]`) and
+    `groundspeed_f64_range` (every operation rounded, any `Rounding fl` and IEEE `fl64`: result in `[0, 136]`, every
+    intermediate in `[0, 18432]`, so no overflow and no NaN) under the explicit hypothesis `SqrtSound` on `sqrt`.
+    TRACK: the final `rem_euclid(360.)` + corner arm with the IEEE-754 addition is in `[0, 360)` for every finite
+    input (`track_wrap_ieee`), the `360.0` corner is characterised sharply (`track_wrap_ieee_corner`).  NOT proved:
+    that the value entering the final wrap is finite (libm `atan2` finite on finite arguments; the divisions are by
+    non-zero numbers: `trackDivisor_pos`, the literals `4.`, `0.01745`) — checked by the harness on the real code.
 * One quantisation step is 128 units of 1e-7 degree.  The decodable window, read off the code
   (19 / 20 transmitted bits, references shifted right by 7), is
   `-2^18 ≤ ⌊q/128⌋ − ⌊r/128⌋ < 2^18` for latitude and `± 2^19` for longitude, `q` the true and `r`
@@ -37,6 +40,7 @@ Conventions of the statements
 -/
 import Rs1090.Proofs.FlarmRoundtrip
 import Rs1090.Proofs.FlarmTrack
+import Rs1090.Proofs.FlarmF64
 import Rs1090.Gen.HiddenState
 namespace Rs1090.Props.C15
 open Rs1090 Rs1090.Model.Flarm Rs1090.Gen.Flarm Rs1090.Proofs.Flarm
@@ -110,7 +114,7 @@ theorem short_input_err (F : FloatOps) (ts : Nat) (fin : Bool) (roundLat roundLo
 
 /-! ### integer fields bounded; the track lies in [0, 360) in exact arithmetic
 
-(f64 finiteness of `groundspeed` / `track` and the `rem_euclid` 360.0 corner: harness only.) -/
+(f64: see the section "ground speed bounded, and the track wrap with the IEEE-754 addition" below.) -/
 
 /-- **track ∈ [0, 360)** for every record, on exact rationals (repaired code; `unrepaired_track_leaves_range` in
     Proofs/FlarmTrack.lean shows that `track4 − turning_rate` alone does not have this range). -/
@@ -162,6 +166,58 @@ theorem record_bounds (F : FloatOps) (ts : Nat) (fin : Bool) (roundLat roundLon 
 /-- the divisor used by the track estimate is never zero (`if v < 1e-6 { 1. }`) -/
 theorem trackDivisor_pos (v : Rat) : 0 < trackDivisor v :=
   Proofs.Flarm.trackDivisor_pos v
+
+/-! ### ground speed bounded, and the track wrap with the IEEE-754 addition (lemmas: `Proofs/FlarmF64.lean`)
+
+`F.sqrt` is a parameter; the hypothesis on it is explicit: `SqrtSound sqrt := ∀ x ∈ [0, 18432], 0 ≤ sqrt x ∧
+sqrt x · sqrt x ≤ x + 1` (true of the real and of the correctly rounded binary64 square root; asked only on the range
+the decoder uses).  No hypothesis on `atan2` is needed for the range of the track: the final wrap is total. -/
+
+/-- **ground speed ∈ [0, 136]** for every record (exact arithmetic, `sqrt` any function satisfying `SqrtSound`):
+    four samples `√((n/4)² + (e/4)²)` with `n, e ∈ [−384, 381]` (`record_bounds`), mean. -/
+theorem groundspeed_range (F : FloatOps) (hs : SqrtSound F.sqrt) (ts : Nat) (fin : Bool) (roundLat roundLon : Int)
+    (hlat : I32 roundLat) (hlon : I32 roundLon) (msg : List Nat) (r : Record)
+    (h : fromRecord F ts fin roundLat roundLon msg = .ok r) :
+    0 ≤ r.groundspeed ∧ r.groundspeed ≤ 136 := by
+  obtain ⟨_, _, _, _, _, _, _, _, _, hl, _, hb⟩ := record_bounds F ts fin roundLat roundLon hlat hlon msg r h
+  obtain ⟨_, _, icao24, isIcao, w0, w1, w2, w3, w4, m, _, _, rfl⟩ :=
+    record_shape F ts fin roundLat roundLon hlat hlon msg r h
+  exact groundspeed_bounds F hs _ _ hl hb
+
+open Rs1090.Proofs.CprFloat Rs1090.Proofs.IeeeRound in
+/-- **ground speed finite in f64**: `decode_groundspeed` with EVERY operation rounded (`fGroundspeed fl sqrt`:
+    `n as f64 / 4.`, the products, the sums, the mean; `sqrt` returning a binary64 value) on the velocity lists of any
+    record returns a value in `[0, 136]`, every intermediate being in `[0, 18432]` (`fGsStep_bound`) — far below
+    `2^1023`, so nothing overflows and no NaN arises; for every rounding with `Rounding fl`, and for IEEE-754. -/
+theorem groundspeed_f64_range (F : FloatOps) (ts : Nat) (fin : Bool) (roundLat roundLon : Int)
+    (hlat : I32 roundLat) (hlon : I32 roundLon) (msg : List Nat) (r : Record)
+    (h : fromRecord F ts fin roundLat roundLon msg = .ok r) (sqrt : Rat → Rat) (hs : SqrtSound sqrt) :
+    (∀ fl, Rounding fl → 0 ≤ fGroundspeed fl sqrt r.ns r.ew ∧ fGroundspeed fl sqrt r.ns r.ew ≤ 136) ∧
+    (0 ≤ fGroundspeed fl64 sqrt r.ns r.ew ∧ fGroundspeed fl64 sqrt r.ns r.ew ≤ 136) := by
+  obtain ⟨_, _, _, _, _, _, _, _, _, hl, _, hb⟩ := record_bounds F ts fin roundLat roundLon hlat hlon msg r h
+  exact ⟨fun fl R => fGroundspeed_bounds R hs _ _ hl hb, fGroundspeed_bounds rounding_fl64 hs _ _ hl hb⟩
+
+open Rs1090.Proofs.IeeeRound in
+/-- **track ∈ [0, 360) in binary64**: the last two statements of `decode_track` — std's `rem_euclid(360.)`
+    (`let r = t % 360.; if r < 0. { r + 360. } else { r }`, `%` exact, the addition rounded to nearest-even) and the
+    corner arm `if track >= 360. { 0. }` — return a value in `[0, 360)` for EVERY finite `t`; hence whatever `atan2`,
+    the divisions and the first `rem_euclid`s produced.  Completes `wrap_rounded_range` (abstract monotone rounding)
+    with the IEEE-754 instance. -/
+theorem track_wrap_ieee (t : Rat) : 0 ≤ wrapR fl64 t ∧ wrapR fl64 t < 360 := wrapR_ieee t
+
+open Rs1090.Proofs.IeeeRound in
+/-- **the `360.0` corner of `rem_euclid`, sharp**: the IEEE `rem_euclid` returns exactly 360.0 iff the truncated
+    remainder lies in `[−2⁻⁴⁵, 0)`; it does for `t = −2⁻⁴⁶` (so the arm is needed under IEEE rounding itself, not
+    only under the artificial rounding of `wrap_rounded_needs_arm`), and the arm then returns 0. -/
+theorem track_wrap_ieee_corner :
+    (∀ t : Rat, remEuclidR fl64 t 360 = 360 ↔ (-(1 / 2 ^ 45) ≤ fmodPos t 360 ∧ fmodPos t 360 < 0)) ∧
+    remEuclidR fl64 (-(1 / 2 ^ 46)) 360 = 360 ∧ wrapR fl64 (-(1 / 2 ^ 46)) = 0 :=
+  ⟨remEuclidR_ieee_eq_360_iff, remEuclidR_ieee_corner⟩
+
+-- `SqrtSound` is satisfiable: by the integer square root of the integer part, and trivially by a constant
+example : SqrtSound isqrt := isqrt_sound
+example : SqrtSound (fun _ => 0) := fun x h0 _ => ⟨le_refl _, by simpa using by linarith⟩
+example : isqrt 18432 = 135 := by decide +kernel
 
 /-! ### round trip through the independent encoder -/
 
